@@ -43,6 +43,8 @@
 (*                     handed to its writer goroutine                          *)
 (*   "CloseSkipsTaken" Close looks only at the buffer, not at a batch a flush  *)
 (*                     in progress has already taken                           *)
+(*   "UpgradeNoProbe"  an upgrade packet is honoured on a candidate whose probe  *)
+(*                     was never answered                                      *)
 (*   "UpgTailEager"    an upgrade completing on a closing session closes the   *)
 (*                     new transport at once even with packets still buffered  *)
 (*   "FlushForgets"    a flush asked for while another one runs is dropped     *)
@@ -112,6 +114,7 @@ Init ==
            cut |-> 0,               \* batches with messages written to a connection that was already closed
            accepted |-> {},         \* messages accepted before a graceful Close (C12)
            hard |-> FALSE,          \* Close(true) was called
+           unprobed |-> FALSE,      \* the transport was switched for a candidate that had not been probed
            cclosed |-> FALSE,       \* the client has been sent a close packet: a conformant client does not poll any more
            aborted |-> FALSE]       \* the client gave up a poll (it is not "a client that keeps reading" any more)
   /\ hist = <<>>
@@ -379,8 +382,9 @@ CheckTick ==
     /\ UNCHANGED ob
     /\ H([a |-> "check"])
 \* the conformant client sends "upgrade" only after the probe pong and with no poll outstanding
+\* (a candidate that sends "upgrade" without having been probed is an unexpected packet: CandFail)
 CandUpgrade ==
-    /\ s.cand = "probed" /\ s.poll = "none" /\ s.infl["p"] = <<>> /\ s.infl["w"] = <<>>
+    /\ (s.cand = "probed" \/ (Dev("UpgradeNoProbe") /\ s.cand = "attached")) /\ s.poll = "none" /\ s.infl["p"] = <<>> /\ s.infl["w"] = <<>>
     /\ IF s.rs = "closed" /\ ~Dev("UpgradeOnClosed")
        THEN \* too late: cleanup, the candidate is closed
             /\ "late" \in Features
@@ -393,7 +397,7 @@ CandUpgrade ==
                    c == [b EXCEPT !.cur = "w", !.att["w"] = TRUE]                     \* .. setTransport
                IN s' = Flush(c, "upg")
             /\ H([a |-> "cand.upgrade"])
-    /\ UNCHANGED ob
+    /\ ob' = [ob EXCEPT !.unprobed = @ \/ (s.cand = "attached" /\ (s.rs # "closed" \/ Dev("UpgradeOnClosed")))]
 \* the candidate fails (unexpected packet, connection lost, upgrade timeout): only the candidate is closed
 CandFail ==
     /\ s.cand \in {"attached", "probed"}
@@ -477,6 +481,8 @@ C12_BufferedFirst == (Quiet /\ s.rs = "closed" /\ ob.reasons = <<"forced close">
 C08_AtMostOnce == (s.cur = "w") => s.upgraded
 C08_FailureKeepsSession == (s.cand = "none" /\ ~s.upgraded /\ s.rs = "open") => ~s.upgrading
 C08_NotOnClosed == (s.upgraded /\ ob.nclose = 1) => (s.cur = "w" => ~Dev("UpgradeOnClosed"))
+\* C08: the transport is switched only for a candidate whose probe was answered
+C08_ProbeFirst == ~ob.unprobed
 \* C03/C08: after the close event nothing else happens to the session: an upgrade after it is a breach
 C03_SilentAfterClose == [][(ob.nclose = 1 /\ ~s.upgraded) => ~s'.upgraded]_vars
 \* C07: while a ping is outstanding on an open session its deadline is armed (an upgrade completing between a ping and
